@@ -8,7 +8,7 @@ COMMON_TB = [
 ]
 NOTE = ("Trusted: Lean 4.33.0 kernel (axioms propext, Classical.choice, Quot.sound only; no sorry/native_decide); the model is "
         "hand-written and tied to /repo by differential correspondence (Go harness vs compiled Lean driver) on every run; "
-        "Go's regexp/fmt/strconv/reflect behaviour is modelled, not verified. ")
+        "Go's regexp/fmt/strconv/reflect/encoding-json behaviour is modelled, not verified. ")
 
 PROPS, LEVEL_TEXT = {}, {}
 for _m in pkgutil.iter_modules(__path__):
@@ -27,15 +27,15 @@ for _pid in PENDING:
 EXTRA_MODULES = {
     "C05": ["Proofs.C05Render"],
     "C07": ["Proofs.C07", "Proofs.C07Lines"],
-    "C08": ["Proofs.C08"],
+    "C08": ["Proofs.C08", "Proofs.C08Source"],
     "C10": ["Proofs.C10"],
     "C11": ["Proofs.C11"],
     "C12": ["Proofs.C12"],
     "C14": ["Proofs.C14"],
     "C18": ["Proofs.C18"],
     "C19": ["Proofs.C19"],
-    "C01": ["Proofs.C01", "Proofs.NoPanic", "Proofs.StdNoPanic", "Proofs.ArrNoPanic"],
-    "C02": ["Proofs.C02"],
+    "C01": ["Proofs.C01", "Proofs.NoPanic", "Proofs.StdNoPanic", "Proofs.ArrNoPanic", "Proofs.JsonFilter"],
+    "C02": ["Proofs.C02", "Proofs.JsonFilter"],
     "C03": ["Proofs.C03"],
     "C20": ["Proofs.C20"],
 }
@@ -92,6 +92,21 @@ TRANSLATOR_TIES = {
                    "static calls of reflect.Value.MapKeys / MapRange in the library packages; the justification of each audited site "
                    "(Liquid/MapIterFacts.lean) is a reading of the source, not a proof; iteration reached through other APIs "
                    "(e.g. fmt printing a map, which sorts keys itself; encoding/json) is not listed",
+    },
+    "global_calls_audited": {
+        "props": ["C02", "C03", "C04"],
+        "module": "Proofs.GlobalCalls",
+        "claim": "Source tie against package-level caches (translator T3, call facts, re-run on every check): every call outside "
+                 "init that hands a package-level variable of the library - its address, or the pointer, map, slice or interface "
+                 "it holds - to a function or method outside the read-only list (regexp, reflect, fmt, strings, strconv, sort, "
+                 "time, ...) is listed with go/ssa, and the obligation global_calls_audited re-checks that only the five audited "
+                 "read-only variables occur (two reflect.Type values, invalidLoc, the two loop sentinels); a sync.Map, sync.Pool "
+                 "or memo table added at package level - state that survives a render and is shared by all goroutines - breaks "
+                 "the check.",
+        "trusted": "translator T3 call facts (translate/writes.go globalCalls, go/ssa, nothing executed): receivers and arguments "
+                   "whose address roots in a package-level variable of the library; callees in the standard-library read-only list are "
+                   "trusted not to write through their arguments; the five audited variables (Liquid/ConcFacts.lean) are justified by "
+                   "reading the callee; state kept in struct fields of the engine or of a template is not covered by this rule",
     },
 }
 for _name, _t in TRANSLATOR_TIES.items():
